@@ -10,21 +10,31 @@ func init() {
 			interpPath + ".vhNameMatch":   "vmNameMatch",
 			interpPath + ".vhLineMatch":   "vmLineMatch",
 			interpPath + ".vhReleaseTags": "vmReleaseTags",
+			interpPath + ".vhHeaderMatch": "vmHeaderMatch",
+			interpPath + ".matchBuildTag": "vmMatchPred",
+			interpPath + ".vmMatchTag":    "vmMatchPred",
+			"go/parser.ParseFile":         "vmParseFile",
+			"(*go/ast.CommentGroup).Text": "vmCommentText",
 		},
 		Obligs: func(tier string) []Oblig {
 			var r []Oblig
+			noPred := []string{"vmMatchPred"}
 			maxParts, maxOpts, maxTags := 4, 2, 2
 			if tier == "thorough" {
 				maxParts, maxOpts, maxTags = 5, 2, 2
 			}
-			for parts := 1; parts <= maxParts; parts++ {
+			// heaviest first: the workers then finish together
+			for parts := maxParts; parts >= 1; parts-- {
 				for dot := 0; dot <= 2; dot++ {
-					r = append(r, Oblig{Harness: "vh_C17_name", Unroll: 8, Globals: map[string]int{"vhNParts": parts, "vhDotSeg": dot, "vhNoGo": 0}})
+					if tier != "thorough" && parts == 4 && dot > 0 {
+						continue // (4 words + dotted segment: thorough)
+					}
+					r = append(r, Oblig{Harness: "vh_C17_name", DropRedirects: noPred, Unroll: 8, Globals: map[string]int{"vhNParts": parts, "vhDotSeg": dot, "vhNoGo": 0}})
 				}
 			}
-			r = append(r, Oblig{Harness: "vh_C17_name", Unroll: 14, Globals: map[string]int{"vhNoGo": 1}})
+			r = append(r, Oblig{Harness: "vh_C17_name", DropRedirects: noPred, Unroll: 14, Globals: map[string]int{"vhNoGo": 1}})
 			for kind := 1; kind <= 3; kind++ {
-				r = append(r, Oblig{Harness: "vh_C17_line", Unroll: 12, Globals: map[string]int{"vhLineKind": kind}})
+				r = append(r, Oblig{Harness: "vh_C17_line", DropRedirects: noPred, Unroll: 12, Globals: map[string]int{"vhLineKind": kind}})
 			}
 			for opts := 1; opts <= maxOpts; opts++ {
 				for tags := 1; tags <= maxTags; tags++ {
@@ -32,13 +42,50 @@ func init() {
 						continue
 					}
 					for gap := -1; gap < opts; gap++ {
-						r = append(r, Oblig{Harness: "vh_C17_line", Unroll: 8, Globals: map[string]int{"vhLineKind": 0, "vhNOpts": opts, "vhNTags": tags, "vhGapAt": gap}})
+						if opts*tags == 1 {
+							// one tag: split by tag kind (4 cheaper obligations, same union)
+							for kind := 0; kind <= 3; kind++ {
+								r = append(r, Oblig{Harness: "vh_C17_line", DropRedirects: noPred, Unroll: 8, Globals: map[string]int{"vhLineKind": 0, "vhNOpts": 1, "vhNTags": 1, "vhGapAt": gap, "vhTagKind": kind}})
+							}
+							continue
+						}
+						r = append(r, Oblig{Harness: "vh_C17_line", DropRedirects: noPred, Unroll: 8, Globals: map[string]int{"vhLineKind": 0, "vhNOpts": opts, "vhNTags": tags, "vhGapAt": gap, "vhTagKind": -1}})
 					}
 				}
 			}
+			// Constraint headers, decided in two steps.
+			// (a) tag level, real matchBuildTag against the restated go/build rule:
+			//     a single-tag //go:build line, every tag kind, and a single +build line.
+			r = append(r, Oblig{Harness: "vh_C17_header", DropRedirects: noPred, Unroll: 8, Globals: map[string]int{"vhHasGoBuild": 1, "vhExprShape": 0, "vhNPlusLines": 0, "vhDocGroup": 0, "vhHdrSimple": 0}})
+			if tier == "thorough" {
+				r = append(r, Oblig{Harness: "vh_C17_header", DropRedirects: noPred, Unroll: 8, Globals: map[string]int{"vhHasGoBuild": 1, "vhExprShape": 1, "vhNPlusLines": 0, "vhDocGroup": 1, "vhHdrSimple": 0}})
+				r = append(r, Oblig{Harness: "vh_C17_header", DropRedirects: noPred, Unroll: 8, Globals: map[string]int{"vhHasGoBuild": 0, "vhNPlusLines": 1, "vhDocGroup": 1, "vhLineKind": 0, "vhNOpts": 1, "vhNTags": 1, "vhGapAt": -1}})
+			}
+			// (b) structure: tag matching on both sides (matchBuildTag, restated rule) is
+			//     one uninterpreted predicate over the tag text; expression shapes,
+			//     precedence of //go:build over +build lines, AND of +build lines.
+			maxPlus := 1
+			if tier == "thorough" {
+				maxPlus = 2
+			}
+			for shape := 0; shape <= 9; shape++ {
+				for plus := 0; plus <= maxPlus; plus++ {
+					if tier != "thorough" && plus > 0 && shape%3 != 0 {
+						continue
+					}
+					r = append(r, Oblig{Harness: "vh_C17_header", Unroll: 8, Globals: map[string]int{"vhHasGoBuild": 1, "vhExprShape": shape, "vhNPlusLines": plus, "vhDocGroup": shape % 2, "vhHdrSimple": 1, "vhLineKind": 0, "vhNOpts": 1, "vhNTags": 1 + plus%2, "vhGapAt": -1}})
+				}
+			}
+			hdr := func(plus, opts, tags int) Oblig {
+				return Oblig{Harness: "vh_C17_header", Unroll: 8, Globals: map[string]int{"vhHasGoBuild": 0, "vhNPlusLines": plus, "vhDocGroup": plus % 2, "vhHdrSimple": 1, "vhLineKind": 0, "vhNOpts": opts, "vhNTags": tags, "vhGapAt": -1}}
+			}
+			r = append(r, hdr(1, 1, 2), hdr(1, 2, 1), hdr(2, 1, 1))
+			if tier == "thorough" {
+				r = append(r, hdr(2, 1, 2), hdr(2, 2, 1), hdr(3, 1, 1))
+			}
 			return r
 		},
-		Bounds: []string{"file name <= 12 (quick) / 20 (thorough) bytes over [a-z0-9_.]", "<= 6 '_'-separated parts", "+build line <= 12/20 bytes over [a-z0-9_.!, +]", "GOOS, GOARCH: any value of go/build's known lists", "release go1.1..go1.40", "one custom build tag <= 8 bytes"},
+		Bounds: []string{"file name: 1..4 (thorough 5) '_'-separated words of <= 11 bytes over [a-z0-9], optional .word / .word_word segment (with 4 words: thorough only), .go", "+build line: 1 option x 1 tag (thorough 2x2) with !/!!, generic/go1.N/go1.junk/malformed words <= 8 bytes", "constraint header: optional //go:build line (10 expression shapes, <= 3 tags) + 0..1 (thorough 2) +build lines; +build-only headers of 1..2 (thorough 3) lines", "GOOS, GOARCH: any value of go/build's known lists", "release go1.1..go1.40", "one custom build tag <= 8 bytes"},
 		Assumptions: []string{"symbolic strings are ASCII", "Context.Compiler, CgoEnabled, ToolTags empty (compiler/cgo tags outside the claim)", "file names contain no '/'"},
 	}
 }
